@@ -21,7 +21,7 @@ CLAIMED = {
              '(never PASS after a failure, earliest failure named, nothing escapes); the step runners are analysed for '
              'instruction order/halt (fold shape), failure-kind handler tables, value-based enum conversions, and every '
              'step site for step/executor/contents agreement; full execution for conf-phase-first and SKIP. '
-             'This is universal over paths and fault combinations, which example tests cannot be.',
+             'This is universal over paths and fault combinations, which example tests cannot be. Also: when the assertion failed and a later step fails with an error, the result names the error (an error is never reported as a failed test); REC sweep over the data classes of `execution`.',
         design='DESIGN.md section 5, C01'),
     'C02': dict(
         technique='decision-table extraction by path-sensitive constant propagation; constant folding of the exit-value '
@@ -31,7 +31,7 @@ CLAIMED = {
              'help); _FOR_FULL_RESULT is folded and compared with the documented codes/identifiers for every verdict; '
              'each of the three reporters is analysed for every verdict x has-sandbox x processing status: which stream '
              'gets the identifier, what else goes to stdout, which value is returned, and that identifier and exit code '
-             'come from one ExitValue.',
+             'come from one ExitValue. REC sweep over the data classes of `processing`, the exit-value and result records.',
         design='DESIGN.md section 5, C02'),
     'C03': dict(
         technique='typestate traces of the executor; path analysis of the processor/accessor; who-may-call (closed '
@@ -45,7 +45,7 @@ CLAIMED = {
              'allowed callers; the symbol command reaches nothing that executes; ~500 validators, parsers and '
              'symbol-usage getters reach no effect primitive through resolved calls; optional-error results are never '
              'dropped in the validation layers; the four phase adapters validate before they execute; the '
-             'pre/post-sandbox step selection tables are as documented; symbol validation sees every usage.',
+             'pre/post-sandbox step selection tables are as documented; symbol validation sees every usage. The command-line actor examines the act source to its end (typestate of the remainder check); every element of a validated sequence is checked (no element skipped); REC sweep over `test_case`.',
         design='DESIGN.md section 5, C03',
         note='Dynamic dispatch through the SDV/DDV/ADV layers is not followed by the effect analysis (stated limit).'),
     'C04': dict(
@@ -103,7 +103,7 @@ CLAIMED = {
              'tested against the visited paths before it is parsed and the list handed on contains it; inclusion never '
              'writes the current-phase state of the including parser and merges by extending the existing list object '
              '(replacement only when the key is established to be absent); repeated phases reuse their list; the '
-             'element source keeps every line.',
+             'element source keeps every line. The act phase collects a line only when the end of the document has been excluded since the last consumed line; every ParseSource of a document file is constructed from the text as read; REC sweep over `section_document`.',
         design='DESIGN.md section 5, C07',
         note='Not decided: line-number arithmetic of ParseSource.consume over all documents and comment / blank line '
              'handling (value level).'),
@@ -132,7 +132,7 @@ CLAIMED = {
              'output files are written to the files of the result directory that the exit-code / stdout / stderr '
              'assertions read; every result translator agrees between its assertion and non-assertion forms, a '
              'non-zero exit code is FAIL in [assert] and HARD_ERROR elsewhere, -ignore-exit-code selects a translator '
-             'that is successful for every exit code.',
+             'that is successful for every exit code. Every StdFiles / StdOutputFiles for a child process gives every channel explicitly (the defaults are Exactly\'s own stdin/stdout/stderr); every text writer flushes its file object before handing it to a process (typestate); REC sweep over the process-execution data classes.',
         design='DESIGN.md section 5, C10',
         note='Not decided: the argument vector denoted by arbitrary program syntax, the bytes the child receives.'),
     'C11': dict(
@@ -162,7 +162,7 @@ CLAIMED = {
              '-selection composes a conjunction and -with-pruned a disjunction with the earlier matcher first, other '
              'components kept; the file-type tables (syntax token, stat predicate, path predicate, the two accessors, '
              'the type matcher) agree for each of the three types; nothing in the matcher / file-list packages '
-             'resolves symbolic links.',
+             'resolves symbolic links. dir-contents-of looks at the destination with lstat() on every path (clash without following links); the recursive model is built from the stored depth limits (direct-contents shortcut only for max depth 0 and no min depth); application purity of matchers; REC sweep.',
         design='DESIGN.md section 5, C15',
         note='Not decided: the tree produced or matched for a given list / matcher, depth limits, counting (value level).'),
     'C16': dict(
@@ -188,7 +188,7 @@ CLAIMED = {
              'and on every path of the concatenation both operands are kept unless the path condition says one is '
              'empty; standalone and suite runs derive the handling setup through the same function, with --suite '
              'before exactly.suite beside the case before the default; cases use the setup of the suite that lists '
-             'them, sub-suites start from the default.',
+             'them, sub-suites start from the default. `resolve(symbols)` of every symbol-dependent value leaves the object it is called on unchanged (mutation summaries; a memo replaced whenever the freshly computed key differs is recognised) - the instructions of a suite file are parsed once and resolved for every case.',
         design='DESIGN.md section 5, C17'),
     'C12': dict(
         technique='constant folding of relativity tables and destination configurations; alias/mutation analysis of the '
@@ -203,7 +203,7 @@ CLAIMED = {
              'every path; every symbol reference a path argument can produce carries the restriction built from that '
              'argument\'s accepted variants, and the restriction tests the resolved relativity as documented; every '
              'symbol-dependent value an instruction is built from is reported for validation. The unguarded '
-             'root/suffix joins (absolute suffix escapes the root) are a known finding (D6).',
+             'root/suffix joins (absolute suffix escapes the root) are a known finding (D6). `stacked(base, suffix)` stacks exactly its arguments and every value of a stacked path is <value of the base> / <the stacked suffix>; REC sweep over `tcfs` and the path types.',
         design='DESIGN.md section 5, C12',
         note='Known finding D6 (6 join sites) is listed in known_findings.json.'),
     'C09': dict(
@@ -214,7 +214,7 @@ CLAIMED = {
              'comment characters and no escape characters on every path, and every lexer of the stream comes from that '
              'constructor; a hard-quoted token becomes one constant and is never searched for symbol references, every '
              'other token is; literal offsets equal the folded delimiter lengths; an unterminated quote is remembered '
-             'and raised as TokenSyntaxError by the next consume, and every handler of it reports a syntax error.',
+             'and raised as TokenSyntaxError by the next consume, and every handler of it reports a syntax error. Discard typestate (the rest of a line is thrown away only when known), affine offsets of the symbol-reference scanner, here-document body (only marker / end of source end it; body = the lines before the marker), and: a quoted word is never an option (option matches use the source string; is_option demands an unquoted token; decision table of the matcher).',
         design='DESIGN.md section 5, C09',
         note='Only lexer configuration and quoting routing are decided; token boundaries and here-document bodies are '
              'value-level.'),
@@ -227,7 +227,7 @@ CLAIMED = {
              'Path.glob) is enclosed - in its function or at all its call sites - by handlers covering what the '
              'evaluator raises on ill-formed text and converting it to the repository\'s error channel; the integer '
              'evaluator maps every exception class of eval to "not an integer" and the integer / regex validators '
-             'report it in the applicable step.',
+             'report it in the applicable step. Format templates are constants (user text is an argument, never part of the template - messages are rendered lazily outside every handler); the document / instruction parsers use no raising search (`index`) without a handler; first-character tests on remaining source are guarded.',
         design='DESIGN.md section 5, C18',
         note='Decides the known evaluator kinds listed in the checker (table EVALUATORS); "whatever text" as such is not '
              'decided.'),
@@ -240,7 +240,7 @@ CLAIMED = {
              'is built with the dual operator over the operands\' inversions, the negation evaluator rewrites && / || '
              'into the dual over negated operands and constants into the opposite constant, matchers of unknown kind '
              'are never narrowed in either polarity, and the interval classes\' own inversions are exact complements '
-             '(+1 / -1).',
+             '(+1 / -1). Applying a primitive does not change it: mutation summaries over resolved calls show that no application method of any string transformer / matcher changes state stored in the object, directly or by handing it on.',
         design='DESIGN.md section 5, C13',
         note='Only these soundness clauses are decided; the arithmetic of bounds, -line-nums range merging and '
              'negative indices are value-level and not claimed.'),
@@ -271,7 +271,7 @@ CLAIMED = {
              'the [conf] instruction names cover the same sets; the entity-type registry is total; every '
              'cross-reference visitor implements every target kind; anchor ids are target_renderer.apply(target) '
              'and hrefs "#" + the same; URL references are never in-document; id prefixes of target kinds are prefix '
-             'free.',
+             'free. Decision table of the help request router over the folded keyword tables (`help PHASE`, `help PHASE INSTRUCTION`, `help ENTITY-TYPE` for every phase and entity type); every entity type is rendered exactly once in the HTML manual (exclusion list vs filter key, by kind of value); REC sweep over the help structures.',
         design='DESIGN.md section 5, C20',
         note='Not decided: that every help page renders, that every href in the generated HTML has exactly one id '
              '(needs the document to be built - running the program).'),
